@@ -27,6 +27,16 @@ package redis
 //       scriptflush        SCRIPT FLUSH: the next script run is EVALSHA -> NOSCRIPT (nothing executed), then EVAL
 //       lost <acquire i|release i>   the reply of the call's first executed command is dropped after Redis
 //                          executed it (the hook returns a connection error instead): the caller sees an error
+//       reply <kind> <acquire i|release i|acquirectx i|releasectx i>
+//                          every outcome kind of the remote party: Redis executes the call's script for real, then the
+//                          hook hands the Go code <kind> instead of the real reply: nil (the error red.Nil) | wrapnil
+//                          (red.Nil wrapped with %w) | nilval (resp == nil without error) | err (plain error) | typednil
+//                          (a typed-nil error value) | s:<text> (a string) | i:<n> (an int64)     => <res> cmds=... <store>
+//       ctx <cancel|expired|far> <p> <acquire i|release i>
+//                          the call is entered through AcquireCtx / ReleaseCtx with a caller's context: cancelled by the
+//                          hook immediately before the call's p-th Redis command (p=0: cancelled before the call), a
+//                          deadline that has already passed, a deadline one hour ahead          => <res> cmds=... <store>
+//       results: true | false | err (an error, result false) | err+true (an error AND true: never allowed)
 // obs:  <true|false|ok|err> k0=<owner>:<pttl>|k0=- ...        race => won=<i,j|-> <store>
 //       inj  => <res> cmds=<name,name!,...> at=<p|after> inner=<res,res,...|-> <store>
 //                          cmds: the commands the call sent, `!` = answered with an error (nothing executed)
@@ -62,14 +72,65 @@ type c19Hook struct {
 	lose  bool   // drop the reply of the first executed command
 	lost  bool
 	cmds  []string // names of the commands sent; "!" appended if answered with an error
+	// round 5: hand the Go code something else than the real reply of the first executed command
+	subst     string
+	substDone bool
+	// round 5: cancel the caller's context immediately before the cancelAt-th command
+	cancelAt int
+	cancel   func()
+}
+
+// c19NilErr: an error type whose nil pointer is a usable (typed-nil) error value
+type c19NilErr struct{}
+
+func (e *c19NilErr) Error() string { return "verif: typed-nil error value" }
+
+// c19Subst replaces what the executed command hands back
+func c19Subst(cmd red.Cmder, kind string) error {
+	c, ok := cmd.(*red.Cmd)
+	set := func(v any) error {
+		if !ok { // not a generic command (the call does not run a script here): a value cannot be substituted
+			return errC19NoSubst
+		}
+		c.SetErr(nil)
+		c.SetVal(v)
+		return nil
+	}
+	fail := func(e error) error {
+		if ok {
+			c.SetVal(nil)
+		}
+		cmd.SetErr(e)
+		return e
+	}
+	switch {
+	case kind == "nil":
+		return fail(red.Nil)
+	case kind == "wrapnil":
+		return fail(fmt.Errorf("verif hook: %w", red.Nil))
+	case kind == "nilval":
+		return set(nil)
+	case kind == "err":
+		return fail(errors.New("verif: substituted error"))
+	case kind == "typednil":
+		var e *c19NilErr
+		return fail(e)
+	case strings.HasPrefix(kind, "s:"):
+		return set(kind[2:])
+	case strings.HasPrefix(kind, "i:"):
+		return set(verifh.Atoi64(kind[2:]))
+	}
+	panic("unknown reply kind " + kind)
 }
 
 type c19CtxKey struct{}
 
 var errC19Lost = errors.New("verif: connection lost after the command was executed")
+var errC19NoSubst = errors.New("verif: no value can be substituted in this command type")
 
 func (h *c19Hook) arm(pos int, run func(), lose bool) {
 	h.pos, h.count, h.fired, h.run, h.lose, h.lost, h.cmds = pos, 0, 0, run, lose, false, nil
+	h.subst, h.substDone, h.cancelAt, h.cancel = "", false, 0, nil
 	h.armed.Store(true)
 }
 
@@ -77,6 +138,9 @@ func (h *c19Hook) disarm() { h.armed.Store(false) }
 
 func (h *c19Hook) before() {
 	h.count++
+	if h.cancelAt > 0 && h.count == h.cancelAt && h.cancel != nil {
+		h.cancel()
+	}
 	if h.count == h.pos && h.run != nil {
 		run := h.run
 		h.run = nil
@@ -111,6 +175,14 @@ func (h *c19Hook) ProcessHook(next red.ProcessHook) red.ProcessHook {
 		err := h.after(cmd.Name(), next(ctx, cmd))
 		if err == errC19Lost {
 			cmd.SetErr(err)
+		}
+		if h.subst != "" && !h.substDone && (err == nil || errors.Is(err, red.Nil)) {
+			h.substDone = true
+			if e := c19Subst(cmd, h.subst); e == errC19NoSubst {
+				h.cmds = append(h.cmds, "nosubst")
+			} else {
+				err = e
+			}
 		}
 		return err
 	}
@@ -267,6 +339,39 @@ func c19ExhaustiveNew() []verifh.Section {
 	return out
 }
 
+// c19ExhaustiveOutcomes: every outcome kind x call x instance in four states of the key (free, held by instance 0,
+// lease of instance 0 run out, script cache flushed), followed by every follow-up call (thorough tier).
+func c19ExhaustiveOutcomes() []verifh.Section {
+	base := []string{"ft 0", "acquire 0", "acquire 0 ; ft 500", "scriptflush", "acquire 1 ; scriptflush"}
+	tail := []string{"acquire 0", "acquire 1", "release 0", "release 1"}
+	var mids []string
+	for _, call := range []string{"acquire", "release", "acquirectx", "releasectx"} {
+		for i := 0; i < 2; i++ {
+			for _, kind := range []string{"nil", "wrapnil", "nilval", "err", "typednil", "s:OK", "s:ok", "s:NOK", "s:", "i:1", "i:0", "i:2", "i:-1"} {
+				mids = append(mids, fmt.Sprintf("reply %s %s %d", kind, call, i))
+			}
+		}
+	}
+	for _, call := range []string{"acquire", "release"} {
+		for i := 0; i < 2; i++ {
+			for p := 0; p <= 3; p++ {
+				mids = append(mids, fmt.Sprintf("ctx cancel %d %s %d", p, call, i))
+			}
+			mids = append(mids, fmt.Sprintf("ctx expired 0 %s %d", call, i), fmt.Sprintf("ctx far 0 %s %d", call, i))
+		}
+	}
+	var out []verifh.Section
+	for _, a := range base {
+		for _, m := range mids {
+			for _, d := range tail {
+				ops := append(strings.Split(a, " ; "), m, d)
+				out = append(out, verifh.Section{Cfg: "n=2 keys=1", Ops: ops})
+			}
+		}
+	}
+	return out
+}
+
 func c19Gen(r *verifh.Rng) []verifh.Section {
 	var secs []verifh.Section
 	if verifh.Thorough() {
@@ -276,6 +381,9 @@ func c19Gen(r *verifh.Rng) []verifh.Section {
 		}
 		if verifh.Seed()%3 == 0 {
 			secs = append(secs, c19ExhaustiveNew()...)
+		}
+		if verifh.Seed()%3 == 2 {
+			secs = append(secs, c19ExhaustiveOutcomes()...)
 		}
 	}
 	nsec := verifh.Scale(150, 800)
@@ -432,7 +540,64 @@ func c19Gen(r *verifh.Rng) []verifh.Section {
 			}
 			i := r.Intn(n)
 			k := i % nkeys
-			switch x := r.Intn(132); {
+			switch x := r.Intn(148); {
+			case x >= 132 && x < 142:
+				// every outcome kind of the remote party: the script runs, the Go code is handed something else.
+				// States: key free / held by the caller / held by a competitor (then the real reply is a refusal).
+				a, b := i, other(i)
+				switch r.Intn(4) {
+				case 0:
+					acq(a)
+				case 1:
+					acq(b)
+				case 2:
+					if sim.holder[k] >= 0 {
+						ft(sim.rem[k])
+					}
+				}
+				call := r.PickS("acquire", "acquire", "release", "release", "acquirectx", "releasectx")
+				kind := r.PickS("nil", "wrapnil", "nilval", "err", "typednil", "s:OK", "s:OK", "s:ok", "s:NOK", "s:", "s:1", "i:1", "i:1", "i:0", "i:2", "i:-1")
+				add("reply %s %s %d", kind, call, a)
+				simApply(strings.TrimSuffix(call, "ctx") + fmt.Sprintf(" %d", a))
+				// what the caller and a competitor do next must fit the state Redis is really in
+				switch r.Intn(4) {
+				case 0:
+					acq(b)
+				case 1:
+					rel(a)
+				case 2:
+					acq(a)
+				default:
+					ft(r.Pick(1, 499, 500))
+					acq(b)
+				}
+			case x >= 142:
+				// the caller's context: cancelled before the call / before its p-th command, deadline passed, deadline far away
+				a, b := i, other(i)
+				if r.Bool() {
+					acq(r.Pick(a, a, b))
+				}
+				flushed := r.Chance(1, 3)
+				if flushed {
+					add("scriptflush") // two round trips: p=2 falls between NOSCRIPT and EVAL
+				}
+				call := r.PickS("acquire", "release")
+				kind := r.PickS("cancel", "cancel", "cancel", "cancel", "expired", "far")
+				pos := r.Pick(0, 1, 1, 2, 2, 3)
+				add("ctx %s %d %s %d", kind, pos, call, a)
+				trips := 1
+				if flushed {
+					trips = 2
+				}
+				if kind == "far" || kind == "cancel" && pos > trips {
+					simApply(fmt.Sprintf("%s %d", call, a))
+				}
+				if r.Bool() {
+					acq(b)
+				} else {
+					acq(a)
+					rel(a)
+				}
 			case x >= 126:
 				// SetExpire at the boundaries of the lease arithmetic: 0, 1, the last value whose lease in ms fits
 				// in int32 / uint32 and the first that does not, MaxUint32.  The holder must keep the key for
@@ -753,6 +918,9 @@ func TestVerifC19(t *testing.T) {
 		}
 		boolRes := func(b bool, err error) string {
 			if err != nil {
+				if b {
+					return "err+true"
+				}
 				return "err"
 			}
 			if b {
@@ -851,6 +1019,56 @@ func TestVerifC19(t *testing.T) {
 				r, _ := simple(op[1:])
 				hook.disarm()
 				return fmt.Sprintf("%s %s %s", r, cmdsTok(), dump())
+			case op[0] == "reply" && len(op) == 4 && (op[2] == "acquire" || op[2] == "release" || op[2] == "acquirectx" || op[2] == "releasectx"):
+				kinds := map[string]bool{"nil": true, "wrapnil": true, "nilval": true, "err": true, "typednil": true}
+				if !(kinds[op[1]] || strings.HasPrefix(op[1], "s:") || strings.HasPrefix(op[1], "i:")) {
+					return "bad-op"
+				}
+				if strings.HasPrefix(op[1], "i:") {
+					if _, err := strconv.ParseInt(op[1][2:], 10, 64); err != nil {
+						return "bad-op"
+					}
+				}
+				inst(op[3])
+				hook.arm(0, nil, false)
+				hook.subst = op[1]
+				r, _ := simple(op[2:])
+				hook.disarm()
+				return fmt.Sprintf("%s %s %s", r, cmdsTok(), dump())
+			case op[0] == "ctx" && len(op) == 5 && (op[3] == "acquire" || op[3] == "release"):
+				pos := verifh.Atoi(op[2])
+				if pos < 0 || pos > 9 {
+					return "bad-op"
+				}
+				l := inst(op[4])
+				var ctx context.Context
+				var cancel func()
+				switch op[1] {
+				case "cancel":
+					ctx, cancel = context.WithCancel(context.Background())
+					if pos == 0 {
+						cancel()
+					}
+				case "expired":
+					ctx, cancel = context.WithDeadline(context.Background(), time.Now().Add(-time.Hour))
+				case "far":
+					ctx, cancel = context.WithDeadline(context.Background(), time.Now().Add(time.Hour))
+				default:
+					return "bad-op"
+				}
+				hook.arm(0, nil, false)
+				if op[1] == "cancel" && pos > 0 {
+					hook.cancelAt, hook.cancel = pos, cancel
+				}
+				var r string
+				if op[3] == "acquire" {
+					r = boolRes(l.AcquireCtx(ctx))
+				} else {
+					r = boolRes(l.ReleaseCtx(ctx))
+				}
+				hook.disarm()
+				cancel()
+				return fmt.Sprintf("%s %s %s", r, cmdsTok(), dump())
 			case op[0] == "mass" && len(op) == 2:
 				m := verifh.Atoi(op[1])
 				if m < 1 || m > 100000 {
@@ -931,11 +1149,15 @@ func TestVerifC19(t *testing.T) {
 					switch rs {
 					case "true":
 						won = append(won, verifh.Atoi(op[a+1]))
-					case "err":
+					case "err", "err+true":
 						nerr++
+						if rs == "err+true" {
+							res = "err+true"
+						}
 					}
 				}
 				switch {
+				case res == "err+true":
 				case nerr == len(results):
 					res = "err"
 				case nerr > 0:
